@@ -421,6 +421,9 @@ def parseMessage(rawMessage, oobFDs):
             ok = isinstance(v, int) and not isinstance(v, bool)
         else:
             ok = isinstance(v, str)
+        if ok and attr_name == 'signature' and len(v) > 255:
+            # no signature is longer, whatever type the field arrived as
+            ok = False
         if not ok:
             raise error.MarshallingError(
                 'Invalid value for header field %d' % (code,)
